@@ -378,6 +378,9 @@ class _Run:
                 if self.kind == "twisted":
                     with contextlib.redirect_stdout(io.StringIO()):
                         self.loop.run()
+                elif self.kind == "trio" and self.scen["config"].get("trio_async"):
+                    self.res.probe("trio_run_async_entry")
+                    self.box.extra["run_async"]()
                 else:
                     self.loop.run()
                 outcome = ("returned", None)
@@ -614,6 +617,8 @@ class LoopsEngine(Engine):
         read_plans = {str(p): [rng.choice([0, 1, 1, 2]) for _ in range(rng.randint(0, 3))] for p in range(n_w)}
         t_end = 4.0
         cfg = {"loop": kind, "tiebreak": [rng.randrange(4) for _ in range(8)], "t_end": t_end}
+        if kind == "trio" and rng.random() < 0.3:
+            cfg["trio_async"] = True
         scen = {"config": cfg, "ops": ops, "arrivals": arrivals, "rets": rets, "read_plans": read_plans}
         if rng.random() < 0.3:
             # run() a second time on the same loop object: new alarms (ids from 100), possibly a new idle
